@@ -203,6 +203,10 @@ Definition cop (t : tag) (uid : nat) (st : step) : dynop :=
   | SMapBatches n b => op_batch_map t t n (bf b) uid
   | SMapValuesBatches n b => op_batch_map_values TKV TKV n (bf b) uid
   | SGroupValuesToList => op_map TKG TKV (fun x => x) uid
+  | SMapWithSide side h => op_map t TU (sf h side) uid
+  | SFilterWithSide side q => op_filter t (sp q side) uid
+  | SMapWithSideMap pairs dflt => op_map t TU (side_lookup pairs dflt) uid
+  | STryMap f p => op_map t TRES (fun x => if pf p x then VSome (ef f x) else VNone) uid
   | _ => op_map t t (fun x => x) uid
   end.
 
@@ -232,7 +236,8 @@ Lemma compile_steps_ew_step : forall fuel st rest s,
            cs_uid := S (cs_uid s) |}.
 Proof.
   intros fuel st rest s H.
-  destruct st as [f|p|g|f| |f|p|f|p|f|n b|n b| |c|c|c lf fo| | |k| |k rs rd];
+  destruct st as [f|p|g|f| |f|p|f|p|f|n b|n b| |c|c|c lf fo| | |k| |k rs rd
+                |side h|side q|pairs dflt|f p];
     try discriminate H; try reflexivity.
 Qed.
 
@@ -262,7 +267,8 @@ Lemma cop_tags : forall t uid st t',
     op_in (cop t uid st) = t /\ op_out (cop t uid st) = t'.
 Proof.
   intros t uid st t' Hst Hty.
-  destruct st as [f|p|g|f| |f|p|f|p|f|n b|n b| |c|c|c lf fo| | |k| |k rs rd];
+  destruct st as [f|p|g|f| |f|p|f|p|f|n b|n b| |c|c|c lf fo| | |k| |k rs rd
+                |side h|side q|pairs dflt|f p];
     try discriminate Hst; cbn [step_type] in Hty;
     try (inversion Hty; subst; split; reflexivity);
     try (destruct (Nat.eqb t TKV) eqn:E; [|discriminate Hty];
@@ -293,7 +299,8 @@ Lemma denote_steps_ew_step : forall fuel st rest rows,
     denote_steps (S fuel) (st :: rest) rows = denote_steps fuel rest (dstep st rows).
 Proof.
   intros fuel st rest rows H.
-  destruct st as [f|p|g|f| |f|p|f|p|f|n b|n b| |c|c|c lf fo| | |k| |k rs rd];
+  destruct st as [f|p|g|f| |f|p|f|p|f|n b|n b| |c|c|c lf fo| | |k| |k rs rd
+                |side h|side q|pairs dflt|f p];
     try discriminate H; reflexivity.
 Qed.
 
@@ -318,7 +325,8 @@ Lemma cop_fn : forall t uid st l,
     elementwise_step st = true -> op_fn (cop t uid st) l = Some (dstep st l).
 Proof.
   intros t uid st l H.
-  destruct st as [f|p|g|f| |f|p|f|p|f|n b|n b| |c|c|c lf fo| | |k| |k rs rd];
+  destruct st as [f|p|g|f| |f|p|f|p|f|n b|n b| |c|c|c lf fo| | |k| |k rs rd
+                |side h|side q|pairs dflt|f p];
     try discriminate H.
   - (* SMap *) reflexivity.
   - (* SFilter *) reflexivity.
@@ -337,6 +345,10 @@ Proof.
     rewrite batch_values_chunks_ok; [reflexivity|].
     intros l0. cbn [bf]. apply map_length.
   - (* SGroupValuesToList *) cbn [cop op_map mk_op op_fn]. rewrite map_id. reflexivity.
+  - (* SMapWithSide *) reflexivity.
+  - (* SFilterWithSide *) reflexivity.
+  - (* SMapWithSideMap *) reflexivity.
+  - (* STryMap *) reflexivity.
 Qed.
 
 Lemma map_as_flat_map : forall (A B : Type) (f : A -> B) l, map f l = flat_map (fun x => [f x]) l.
@@ -373,7 +385,8 @@ Lemma dstep_ew : forall st,
     elementwise_step st = true -> exists g, forall l, dstep st l = flat_map g l.
 Proof.
   intros st H.
-  destruct st as [f|p|g|f| |f|p|f|p|f|n b|n b| |c|c|c lf fo| | |k| |k rs rd];
+  destruct st as [f|p|g|f| |f|p|f|p|f|n b|n b| |c|c|c lf fo| | |k| |k rs rd
+                |side h|side q|pairs dflt|f p];
     try discriminate H; unfold dstep; cbn [denote_steps].
   - eexists. intros l. apply map_as_flat_map.
   - eexists. intros l. apply filter_as_flat_map.
@@ -400,6 +413,12 @@ Proof.
       by (intros c; apply rekey_each).
     rewrite concat_map_map_chunks by lia. apply map_as_flat_map.
   - exists (fun x => [x]). intros l. rewrite <- map_as_flat_map, map_id. reflexivity.
+  - (* SMapWithSide *) eexists. intros l. apply map_as_flat_map.
+  - (* SFilterWithSide *) eexists. intros l. apply filter_as_flat_map.
+  - (* SMapWithSideMap *) eexists. intros l. apply map_as_flat_map.
+  - (* STryMap *)
+    eexists. intros l.
+    apply (map_as_flat_map _ _ (fun x => if pf p x then VSome (ef f x) else VNone)).
 Qed.
 
 Lemma cop_ew : forall t uid st, elementwise_step st = true -> ew (cop t uid st).
